@@ -14,6 +14,7 @@ import itertools, os, sys
 import vlib
 
 BACKENDS = ["debug", "internal", "tbb", "omp"]
+OMP_SIG = "C13-omp-limit-applies-to-initialising-thread-only"
 
 
 def prop_oracle(b, hw, ns, reps):
@@ -268,11 +269,59 @@ def run(ctx):
                               {"backend": b, "case": {"earlier_init": a, "init": n, "loop_size": size, "body_us": dur}, "observed": l,
                                "nested_inner_loop": "parallel_for(8), body spins 200 us" if dur == -2 else None,
                                "required": {"count": want_count, "report": lim, "max_inside_at_most": lim, "distinct_threads_at_most": lim}})
+    # ---- the same loop issued by the initialising thread (control) and by ANOTHER thread (which never called
+    # initTaskingSystem): the bound is on every parallel_for, whoever issues it
+    ot_obs = {}
+    for b in BACKENDS:
+        if b not in hws:
+            continue
+        ocases = [(n, 64 * max(n, 2), 100) for n in (1, 2, 4)]
+        rc, ol, oerr = run_batch(ctx, hx[b], "ot", ["%d %d %d" % c for c in ocases], b, timeout=120)
+        if rc != 0 or len(ol) != len(ocases):
+            ctx.violation("%s backend: the other-thread harness died (rc=%d)" % (b, rc), {"backend": b, "stderr_tail": oerr[-1500:]}, found_input=False)
+            continue
+        ctx.count(2 * len(ocases))
+        reported_known = False
+        for c, l in zip(ocases, ol):
+            n, size, dur = c
+            lim = 1 if b == "debug" else n
+            f = dict(x.split("=") for x in l.split() if "=" in x)
+            ot_obs["%s:n=%d" % (b, n)] = l
+            if "other_thread_max_inside" not in f:
+                ctx.violation("%s backend: other-thread case %s: %s" % (b, c, l), {"backend": b, "case": c, "observed": l})
+                continue
+            main_ok = int(f["init_thread_count"]) == size and int(f["init_thread_max_inside"]) <= lim and int(f["report"]) == lim
+            other_ok = int(f["other_thread_count"]) == size and int(f["other_thread_max_inside"]) <= lim
+            if main_ok and other_ok:
+                ctx.nontriv(("ot", b, n))
+                continue
+            if not main_ok or int(f["other_thread_count"]) != size:
+                ctx.violation("%s backend: after initTaskingSystem(%d), parallel_for(%d, body %d us): %s; required: every index once, at most %d inside at once"
+                              % (b, n, size, dur, l, lim), {"backend": b, "case": {"init": n, "loop_size": size, "body_us": dur}, "observed": l,
+                                                            "required": {"count": size, "max_inside_at_most": lim}})
+                continue
+            # excess only in the loop issued by the non-initialising thread: confirm on a second run
+            rc2, o2, e2 = ctx.run_exe(hx[b], ["ot"], stdin="%d %d %d\n" % c, timeout=120)
+            f2 = dict(x.split("=") for x in o2.split() if "=" in x)
+            if not ("other_thread_max_inside" in f2 and int(f2["other_thread_max_inside"]) > lim):
+                ctx.cov.setdefault("unconfirmed_concurrency_excess", []).append({"backend": b, "case": c, "first": l, "second": o2.strip()})
+                continue
+            if reported_known:
+                continue
+            reported_known = True
+            ctx.violation("%s backend: after initTaskingSystem(%d) on the main thread, parallel_for(%d, body %d us) issued by ANOTHER std::thread ran %s "
+                          "(second run: %s) bodies at once; the same loop issued by the initialising thread: %s; required: at most %d"
+                          % (b, n, size, dur, f["other_thread_max_inside"], f2["other_thread_max_inside"], f["init_thread_max_inside"], lim),
+                          {"backend": b, "case": {"init": n, "loop_size": size, "body_us": dur, "issued_by": "a std::thread that never called initTaskingSystem"},
+                           "observed": [l, o2.strip()], "required": {"max_inside_at_most": lim}},
+                          signature=(OMP_SIG if b == "omp" else None))
+    ctx.cov["other_thread_loop_observations"] = ot_obs
     # ---- concurrent re-initialisation: one thread keeps looping parallel_for while the main thread alternates
     # initTaskingSystem(n) / initTaskingSystem(m); never more than max(n, m) threads inside bodies at once
     # (TBB: the new global_control is created before the old one is released — theorem tbb_limit_during_reinit).
     # Not run on the internal backend (re-initialising destroys the scheduler another thread is using: out of scope) nor on
-    # OpenMP (omp_set_num_threads only sets the CALLING thread's ICV: loops issued by another thread are not limited at all).
+    # OpenMP (loops issued by a non-initialising thread are not limited at all there: that is the open finding reported by the
+    # other-thread scenario above, not something to report a second time here).
     cre_obs = {}
     for b in ("tbb", "debug"):
         if b not in hws:
@@ -331,8 +380,6 @@ def run(ctx):
     ctx.assumptions += [
         "ORACLES: that tbb::global_control(max_allowed_parallelism) and omp_set_num_threads ENFORCE their limit is their contract "
         "(measured: max threads inside a parallel_for body); tbb::global_control::active_value = min of live controls or the default",
-        "OpenMP: omp_set_num_threads sets the calling thread's ICV only — loops issued from a thread other than the initialising one are not "
-        "limited (observed: 10-14 bodies at once after initTaskingSystem(2)); the property is checked for loops issued by the initialising thread",
         "hw (the backend's hardware default) is a Section variable, assumed > 0 and probed per backend at run time",
         "Internal: StartThreads' loop bounds, GetNumTaskThreads and Initialize are re-derived from the AST each run; that ~TaskScheduler joins "
         "the old workers is read from TaskScheduler.cpp, not re-derived; loops are issued from the initialising thread",
